@@ -24,14 +24,19 @@ Inductive sval := SNull | SBool (b : bool) | SInt (z : Z) | SFloat (f : float) |
                 | SOther.                     (* an array: implements only AsString and AsBool *)
 Inductive gkind := KString | KBool | KInt | KInt8 | KInt16 | KInt32 | KInt64
                  | KUint | KUint8 | KUint16 | KUint32 | KUint64 | KFloat32 | KFloat64
-                 | KOther.                    (* any unsupported Go type, e.g. a slice *)
+                 | KOther                     (* any unsupported Go type, e.g. a slice *)
+                 | KNamed (k : gkind).        (* a DEFINED type (`type Name string`) whose underlying type is k *)
+(* a Go value carries its dynamic TYPE t (a predeclared kind or a defined type over one):
+   reflect.Call requires the argument's type to be the parameter's type, not only its kind *)
 Inductive gval :=
-| GStr (s : string) | GBool (b : bool)
-| GNum (k : gkind) (z : Z)                    (* an integer of dynamic kind k *)
-| GFlt (k : gkind) (f : float)                (* a float32 (held as the float64 it widens to) or float64 *)
+| GStr (t : gkind) (s : string) | GBool (t : gkind) (b : bool)
+| GNum (t : gkind) (z : Z)                    (* an integer of dynamic type t *)
+| GFlt (t : gkind) (f : float)                (* a float32 (held as the float64 it widens to) or float64 *)
 | GOth.
 Definition dyn_kind (g : gval) : gkind :=
-  match g with GStr _ => KString | GBool _ => KBool | GNum k _ => k | GFlt k _ => k | GOth => KOther end.
+  match g with GStr t _ => t | GBool t _ => t | GNum t _ => t | GFlt t _ => t | GOth => KOther end.
+(* reflect.Type.Kind(): the underlying predeclared kind *)
+Fixpoint base_kind (k : gkind) : gkind := match k with KNamed k' => base_kind k' | _ => k end.
 
 Record golib := {
   parse_float : string -> option float;       (* strconv.ParseFloat(s, 64) *)
@@ -44,8 +49,9 @@ Record golib := {
 Inductive outcome (A : Type) := Ok (a : A) | OkText (* some text, content not modelled *) | Throw | Crash | NoResult.
 Arguments Ok {A} a. Arguments OkText {A}. Arguments Throw {A}. Arguments Crash {A}. Arguments NoResult {A}.
 
-Definition kind_eqb (a b : gkind) : bool :=
+Fixpoint kind_eqb (a b : gkind) : bool :=
   match a, b with
+  | KNamed x, KNamed y => kind_eqb x y
   | KString, KString | KBool, KBool | KInt, KInt | KInt8, KInt8 | KInt16, KInt16 | KInt32, KInt32
   | KInt64, KInt64 | KUint, KUint | KUint8, KUint8 | KUint16, KUint16 | KUint32, KUint32
   | KUint64, KUint64 | KFloat32, KFloat32 | KFloat64, KFloat64 | KOther, KOther => true
@@ -53,7 +59,7 @@ Definition kind_eqb (a b : gkind) : bool :=
   end.
 (* the value range of an integer kind (int and uint are 64-bit) *)
 Definition int_bounds (k : gkind) : option (Z * Z) :=
-  match k with
+  match base_kind k with
   | KInt | KInt64 => Some (minint, maxint)
   | KInt8 => Some (-128, 127) | KInt16 => Some (-32768, 32767) | KInt32 => Some (-2147483648, 2147483647)
   | KUint | KUint64 => Some (0, 18446744073709551615)
@@ -87,11 +93,13 @@ Definition as_string (lib : golib) (v : sval) : string :=
   end.
 
 (* ------------------------------------------------------------------ convertToGoValue *)
+(* the switch is on goType.Kind(); every branch ends with .Convert(goType), so the result has the
+   parameter's TYPE k (also when k is a defined type) *)
 Definition to_go (lib : golib) (k : gkind) (v : sval) : outcome gval :=
-  match k with
-  | KString => Ok (GStr (as_string lib v))
+  match base_kind k with
+  | KString => Ok (GStr k (as_string lib v))
   | KInt | KInt64 =>
-      match as_int v with Conv z => Ok (GNum k z) | _ => Throw end      (* .Convert(goType) *)
+      match as_int v with Conv z => Ok (GNum k z) | _ => Throw end
   | KInt8 | KInt16 | KInt32 =>
       match as_int v with Conv z => if fits k z then Ok (GNum k z) else Throw | _ => Throw end
   | KUint | KUint8 | KUint16 | KUint32 | KUint64 =>
@@ -99,23 +107,23 @@ Definition to_go (lib : golib) (k : gkind) (v : sval) : outcome gval :=
       | Conv z => if (z <? 0) || negb (fits k z) then Throw else Ok (GNum k z)
       | _ => Throw
       end
-  | KFloat64 => match as_float lib v with Conv f => Ok (GFlt KFloat64 f) | _ => Throw end
+  | KFloat64 => match as_float lib v with Conv f => Ok (GFlt k f) | _ => Throw end
   | KFloat32 =>
       match as_float lib v with
-      | Conv f => if negb (is_inf f) && is_inf (f32 lib f) then Throw else Ok (GFlt KFloat32 (f32 lib f))
+      | Conv f => if negb (is_inf f) && is_inf (f32 lib f) then Throw else Ok (GFlt k (f32 lib f))
       | _ => Throw
       end
-  | KBool => Ok (GBool (as_bool v))
-  | KOther => Throw
+  | KBool => Ok (GBool k (as_bool v))
+  | KOther | KNamed _ => Throw
   end.
 
 (* ------------------------------------------------------------------ convertToScriptValue *)
 Definition signed_kind (k : gkind) : bool :=
-  match k with KInt | KInt8 | KInt16 | KInt32 | KInt64 => true | _ => false end.
+  match base_kind k with KInt | KInt8 | KInt16 | KInt32 | KInt64 => true | _ => false end.
 Definition from_go (g : gval) : outcome sval :=
   match g with
-  | GStr s => Ok (SStr s)
-  | GBool b => Ok (SBool b)
+  | GStr _ s => Ok (SStr s)
+  | GBool _ b => Ok (SBool b)
   | GNum k z => if signed_kind k then Ok (SInt z) else if z >? maxint then Throw else Ok (SInt z)
   | GFlt _ f => Ok (SFloat f)
   | GOth => OkText                        (* fmt.Sprintf("%v", ...) of an unsupported result *)
@@ -162,8 +170,9 @@ Definition generic (lib : golib) (k : gkind) (v : sval) : outcome gval :=
   match v with
   | SInt z =>
       match k with
-      | KString => Ok (GStr (itoa z))
-      | KBool => Ok (GBool (negb (z =? 0)))
+      | KNamed _ => OkText                    (* defined types go through convertTypeAlias: not modelled *)
+      | KString => Ok (GStr KString (itoa z))
+      | KBool => Ok (GBool KBool (negb (z =? 0)))
       | KFloat32 => Ok (GFlt KFloat32 (f32 lib (Z2f z)))
       | KFloat64 => Ok (GFlt KFloat64 (Z2f z))
       | KOther => Throw
@@ -171,8 +180,9 @@ Definition generic (lib : golib) (k : gkind) (v : sval) : outcome gval :=
       end
   | SFloat f =>
       match k with
-      | KString => Ok (GStr (fmt_g lib f))
-      | KBool => Ok (GBool (negb (PrimFloat.eqb f 0%float)))
+      | KNamed _ => OkText
+      | KString => Ok (GStr KString (fmt_g lib f))
+      | KBool => Ok (GBool KBool (negb (PrimFloat.eqb f 0%float)))
       | KFloat64 => Ok (GFlt KFloat64 f)
       | KFloat32 => if negb (is_inf f) && is_inf (f32 lib f) then Throw else Ok (GFlt KFloat32 (f32 lib f))
       | KOther => Throw
@@ -194,15 +204,17 @@ Definition generic (lib : golib) (k : gkind) (v : sval) : outcome gval :=
       end
   | SBool b =>
       match k with
-      | KString => Ok (GStr (if b then "true" else "false"))
-      | KBool => Ok (GBool b)
+      | KNamed _ => OkText
+      | KString => Ok (GStr KString (if b then "true" else "false"))
+      | KBool => Ok (GBool KBool b)
       | KFloat32 | KFloat64 => Ok (GFlt k (if b then 1 else 0)%float)
       | KOther => Throw
       | _ => Ok (GNum k (if b then 1 else 0))
       end
   | SStr s =>
       match k with
-      | KString => Ok (GStr s)
+      | KNamed _ => OkText
+      | KString => Ok (GStr KString s)
       | KBool => OkText                       (* parseBool: not modelled *)
       | _ => Throw                            (* "two-step conversion" error *)
       end
